@@ -373,7 +373,11 @@ class Interp:
 
     # -- tasks -----------------------------------------------------------------------------------
     async def op_CANCEL(self, act, pc, task, token=None):
-        t = self.ctx.tasks[task]
+        t = self.ctx.tasks.get(task)
+        if t is None:
+            # the task was never spawned (its spawner was itself cancelled or interrupted first): nothing to cancel
+            self.ctx.rec('cancel-skipped', act, pc, task)
+            return
         self.ctx.cancel_requests.append((task, token, None, t.status))
         self.ctx.rec('inject', task, ('cancel',), {'token': token, 'status': t.status, 'k': None, 'by': act})
         if token is None:
